@@ -165,7 +165,12 @@ std::string op_print(const Op &o)
         case OP_QUIESCE:
                 s << "quiesce " << o.a;
                 break;
+        case OP_QAPI:
+                s << "qapi " << o.a;
+                break;
         }
+        if (o.thr)
+                return "@" + std::to_string(o.thr) + " " + s.str();
         return s.str();
 }
 
@@ -175,7 +180,7 @@ std::string plan_print(const Plan &p)
         s << "cat-plan v1\n";
         s << "meta prop=" << p.prop << " seed=" << p.seed << " idx=" << p.idx << "\n";
         s << "world qcap=" << p.qcap << " shared=" << p.shared << " buf=" << p.buf_size << " ubuf=" << p.ubuf_size << " mutex=" << p.mutex << " fill=" << p.fill
-          << " observe=" << p.observe << " probeok=" << p.probe_ok << " scribble=" << p.scribble << " lockfail=" << p.lockfail << " unlockfail=" << p.unlockfail << "\n";
+          << " observe=" << p.observe << " probeok=" << p.probe_ok << " scribble=" << p.scribble << " lockfail=" << p.lockfail << " unlockfail=" << p.unlockfail << " sched=" << p.sched << "\n";
         for (auto &g : p.groups)
                 s << "group disable=" << g.disable << " name=" << (g.named ? hexenc(g.name) + "." : std::string("~")) << "\n";
         for (auto &c : p.cmds) {
@@ -281,6 +286,7 @@ bool plan_parse(const std::string &text, Plan &p, std::string &err)
                                 p.scribble = kv_int(m, "scribble", 0);
                                 p.lockfail = (int)kv_int(m, "lockfail", -1);
                                 p.unlockfail = (int)kv_int(m, "unlockfail", -1);
+                                p.sched = (uint64_t)std::stoull(m.count("sched") ? m["sched"] : "0");
                         } else if (w == "group") {
                                 KV m = kv_parse(ls);
                                 GroupSpec g;
@@ -340,6 +346,13 @@ bool plan_parse(const std::string &text, Plan &p, std::string &err)
                         break;
                 Op o;
                 std::string x;
+                if (!w.empty() && w[0] == '@') {
+                        o.thr = atoi(w.c_str() + 1);
+                        if (o.thr < 0 || o.thr > 11)
+                                return fail("bad thread");
+                        w.clear();
+                        ls >> w;
+                }
                 try {
                         if (w == "in") {
                                 o.kind = OP_IN;
@@ -405,6 +418,9 @@ bool plan_parse(const std::string &text, Plan &p, std::string &err)
                                 o.kind = OP_DRAIN;
                         } else if (w == "quiesce") {
                                 o.kind = OP_QUIESCE;
+                                ls >> o.a;
+                        } else if (w == "qapi") {
+                                o.kind = OP_QAPI;
                                 ls >> o.a;
                         } else
                                 return fail("unknown op");
@@ -564,6 +580,12 @@ bool plan_valid(const Plan &p, std::string &why)
                 default:
                         break;
                 }
+                if (o.thr != 0 && (p.sched == 0 || !p.mutex))
+                        return bad("threaded op in a plan without scheduler seed / mutex");
+                if (o.thr != 0 && o.kind != OP_TRIG && o.kind != OP_HEXIT && o.kind != OP_QAPI)
+                        return bad("op kind not allowed outside the service thread");
         }
+        if (p.sched != 0 && (p.lockfail >= 0 || p.unlockfail >= 0))
+                return bad("lock faults in a threaded plan");
         return true;
 }
